@@ -168,8 +168,10 @@ xattr_open_map_file(const char *path) {
 	}
 
 	map = calloc(1, sizeof(struct XattrMap));
-	if (map == NULL)
+	if (map == NULL) {
+		perror(path);
 		goto fail_close;
+	}
 
 	for (;;) {
 		char *line = NULL;
